@@ -211,6 +211,11 @@ def split(val: str, sep: str) -> list[str]:
     If _sep_ is empty or _undefined_, _val_ is split into a list of single
     characters. If _val_ is empty or equal to _sep_, an empty list is returned.
     """
+    if is_undefined(sep) and not sep:
+        # The truth of an undefined (StrictUndefined raises), not its text, which
+        # need not be empty (DebugUndefined) or might raise (FalsyStrictUndefined).
+        return list(val)
+
     sep = to_liquid_string(sep)
     if not sep:
         return list(val)
